@@ -213,7 +213,8 @@ theorem add_leaves_other_slots (S : IState) (o : Obj) (info c d : Nat) (h : (c, 
     (get (add S o info) c d).1 = (get S c d).1 := peek_add_other S o info c d h
 
 /-- re-adding the same (category, discriminator) **replaces**: afterwards the category has exactly one binding
-for that discriminator — the new one, at the end — and its other bindings are the old ones, in their order -/
+for that discriminator — the new one, at the end — and its other bindings are the old ones, in their order.
+What happens to relations on a re-add is `readd_starts_unrelated` (Part V): nothing is inherited. -/
 theorem readd_replaces (S : IState) (o : Obj) (info : Nat) :
     (add S o info).entries o.cat =
       (S.entries o.cat).filter (fun e => e.obj.discr != o.discr) ++ [⟨o, info, S.counter⟩]
@@ -405,5 +406,81 @@ example :
     ValInj ((regsOf decls [0, 1]).map (fun p => p.2.obj)) ∧
     (registerAll decls [0, 1] IState.empty).toOption.map (fun S => (relatedOf S ⟨1, 2, 11⟩, relatedOf S ⟨0, 1, 10⟩)) =
       some ([⟨0, 1, 10⟩, ⟨2, 3, 12⟩], [⟨1, 2, 11⟩]) := by decide
+
+/-! ## Part V — re-registration: relations belong to the introspectable, not to the slot -/
+
+/-- **A re-added slot starts unrelated.**  What the code does (`Introspector.add`, registry.py:124-129): the new
+object replaces the old one in `_categories`; `_refs` is not touched — the replaced object keeps its relation list
+under its own key and stays in the lists of its partners, but it is in no category any more.  So, for a *new*
+introspectable `o` (contents not seen before) added after any operation sequence — whether or not its slot was
+occupied: it is the entry of its slot, it is related to nothing, nothing is related to it, and every other
+relation list is exactly what it was.  Nothing is inherited from the object it replaces (seeded change C20-2
+makes `add` hand the old object's relations to the new one: refuted by this theorem's model, caught on the
+real code by the correspondence and by the operation-sequence oracle). -/
+theorem readd_starts_unrelated (ops : List Op) (o : Obj) (info : Nat) (hfresh : o ∉ addedObjs ops)
+    (hU : ValInj (addedObjs (ops ++ [.add o info]))) :
+    let S := runOps IState.empty ops
+    let S' := runOps IState.empty (ops ++ [.add o info])
+    peek S' o.cat o.discr = some ⟨o, info, S.counter⟩
+    ∧ relatedOf S' o = []
+    ∧ (∀ z, o ∉ relatedOf S' z)
+    ∧ (∀ z, relatedOf S' z = relatedOf S z) := by
+  intro S S'
+  have hS' : S' = add S o info := by simp [S', S, runOps_snoc, step]
+  have hU0 : ValInj (addedObjs ops) := by
+    intro a ha b hb
+    exact hU a (by rw [addedObjs_append]; exact List.mem_append_left _ ha) b
+      (by rw [addedObjs_append]; exact List.mem_append_left _ hb)
+  have inv := relInv_runOps hU0 ops (relInv_empty _) (fun _ h => h)
+  have hrefs : S'.refs = S.refs := by rw [hS']; rfl
+  have hrel : ∀ z, relatedOf S' z = relatedOf S z := by intro z; simp [relatedOf, hrefs]
+  refine ⟨by rw [hS']; exact peek_add_same S o info, ?_, ?_, hrel⟩
+  · rw [hrel]
+    simp only [relatedOf]
+    cases hl : alookup o S.refs with
+    | none => rfl
+    | some L => exact absurd (inv.refs.2 o L hl).1 hfresh
+  · intro z hz
+    rw [hrel] at hz
+    exact hfresh ((refsWF_rel inv.refs z).1 o hz)
+
+/-- **relations_link_objects_declared_together** — object level, any number of commits (`registerAll` over the
+concatenation of the executed lists, `registerAll_append`): every link in the introspector joins the two
+*introspectables* that one declared relation of an executed action found, at the moment it was applied, in the
+slot of the declaring introspectable and in the slot it named.  An introspectable registered later under the
+same slot is not one of them: it has exactly the relations its own declarations (and later declarations
+towards its slot) make. -/
+theorem relations_link_objects_declared_together (decls : Nat → List Decl) (ids : List Nat) (S : IState)
+    (h : registerAll decls ids IState.empty = .ok S)
+    (hU : ValInj ((regsOf decls ids).map (fun p => p.2.obj))) (z w : Obj) (hw : w ∈ relatedOf S z) :
+    ∃ pre ks rest xs, opsOfRegs (regsOf decls ids) = pre ++ Op.relate true ks :: rest
+      ∧ (∃ p ∈ regsOf decls ids, ∃ r ∈ p.2.rels, r.rel = true ∧ ks = [p.2.key, (r.cat, r.discr)])
+      ∧ lookupAll (runOps IState.empty pre) ks = .ok xs ∧ xs.map Obj.slot = ks ∧ z ∈ xs ∧ w ∈ xs := by
+  have hS := registerAll_runOps decls ids h
+  rw [hS] at hw
+  have hin : ∀ o ∈ addedObjs (opsOfRegs (regsOf decls ids)), o ∈ (regsOf decls ids).map (fun p => p.2.obj) := by
+    intro o ho
+    obtain ⟨p, hp, he⟩ := addedObjs_opsOfRegs _ o ho
+    exact List.mem_map.mpr ⟨p, hp, he⟩
+  obtain ⟨pre, ks, rest, xs, h1, h2, h3, h4⟩ := links_objects hU _ hin z w hw
+  have hmem : Op.relate true ks ∈ opsOfRegs (regsOf decls ids) := by rw [h1]; simp
+  refine ⟨pre, ks, rest, xs, h1, mem_opsOfRegs_relate hmem, h2, ?_, h3, h4⟩
+  exact lookupAll_slots (catsWF_runOps pre catsWF_empty) h2
+
+/-- non-vacuity, and the seeded scenario in the model: commit 1 registers view_a (slot (1,2), contents 11) with
+permission 'read' (slot (2,3)); commit 2 registers view_b (same slot, contents 21) with permission 'edit'
+(slot (2,4)).  Afterwards the view entry is view_b, related to 'edit' only; 'read' lists the replaced view_a
+object, not view_b. -/
+example :
+    let decls : Nat → List Decl := fun i =>
+      if i = 0 then [⟨⟨1, 2, 11⟩, []⟩, ⟨⟨2, 3, 12⟩, [⟨true, 1, 2⟩]⟩]
+      else [⟨⟨1, 2, 21⟩, []⟩, ⟨⟨2, 4, 22⟩, [⟨true, 1, 2⟩]⟩]
+    ValInj ((regsOf decls [0, 1]).map (fun p => p.2.obj)) ∧
+    (registerAll decls ([0] ++ [1]) IState.empty).toOption.map
+        (fun S => (seen S 1 2, relatedOf S ⟨1, 2, 21⟩, relatedOf S ⟨2, 3, 12⟩, relatedOf S ⟨2, 4, 22⟩)) =
+      some (some (⟨1, 2, 21⟩, 1), [⟨2, 4, 22⟩], [⟨1, 2, 11⟩], [⟨1, 2, 21⟩]) := by decide
+example : (⟨0, 0, 9⟩ : Obj) ∉ addedObjs [.add ⟨0, 0, 7⟩ 0, .add ⟨1, 0, 5⟩ 1, .relate true [(0, 0), (1, 0)]]
+    ∧ ValInj (addedObjs ([.add ⟨0, 0, 7⟩ 0, .add ⟨1, 0, 5⟩ 1, .relate true [(0, 0), (1, 0)]] ++ [.add ⟨0, 0, 9⟩ 2])) := by
+  decide
 
 end Pyr.Introspect
